@@ -17,6 +17,7 @@ EXPLANATION = ('R05.1 sensitivity_to_shear/bulk == TB05 eq. 33 with dy1/dr the s
                'R05.3 calc_radial_tidal_heating(r) * 4 pi r^2 == (21/2) G M^2 R^5 n e^2 / a^6 * 4 pi G/((2l+1) R) * H_mu * Im(mu); R05.4 no in-place update of arguments; '
                'R05.5 energy theorem in differential form and surface value of the flux; R05.6 the flux is constant through liquid layers with real bulk modulus and continuous across every interface kind '
                '(so the theorem holds for layered bodies); R05.7 both kernels are non-negative sums of squares along solutions, hence Im k <= 0 for dissipative or elastic layers. R05.1, R05.2, R05.5 and R05.7 are decided on every arm of every data-dependent test in the kernels.')
+EXPLANATION += ' R05.8 the array twin of calc_radial_tidal_heating: with array arguments (mutable cells; np.asarray hands the same array back) the returned profile is the scalar value and the sensitivity profile the caller passed is left intact.'
 
 
 def _solid_domain(itp, st, v, fr):
@@ -162,12 +163,15 @@ def run(chk):
             return True
         return False
     it2 = Interp(repo, hooks={'index_scalar': idx, 'stmt': stmt})
+    from .common import ArrayTwin
+    twin = ArrayTwin(chk, 'R05.8', it2, d)
     e = X.atom('e', 'pos'); n = X.atom('n', 'pos'); a = X.atom('a', 'pos'); M = X.atom('M', 'pos'); H = X.atom('H_mu'); muc = X.atom('mu', 'complex')
     G = X.atom('const_G', 'pos'); pi = X.atom('pi', 'pos')
     for l in (2, 3):
         val = it2.call(mh, fh, [e, n, a, M, r, H, muc, l])
         ref = X.const(F(21, 2)) * G * M ** 2 * Rw ** 5 * n * e ** 2 / a ** 6 * (4 * pi * G / ((2 * l + 1) * Rw)) * H * X.fn('imag', muc)
         eq('R05.3', f'l={l}: volumetric rate * 4 pi r^2 == (21/2) G M^2 R^5 n e^2/a^6 * [4 pi G/((2l+1)R)] H_mu Im(mu)', val * 4 * pi * r * r, ref, mh.where(fh))
+    twin.finish(floor=1)
     chk.ob('R05.3', 'only negative values are clamped (mask assignment to 0)', len(skipped) >= 1 and all('< 0' in s and s.rstrip().endswith('= 0.0') for s in skipped),
            f'mask statements: {skipped}', mh.where(fh), method='AST pattern')
     energy_theorem(chk, repo, it, m)
